@@ -8,6 +8,8 @@
 #include <unistd.h>
 
 #include <foonathan/memory/memory_arena.hpp>
+#include <foonathan/memory/memory_pool.hpp>
+#include <foonathan/memory/memory_stack.hpp>
 #include <foonathan/memory/static_allocator.hpp>
 #include <foonathan/memory/virtual_memory.hpp>
 
@@ -139,6 +141,7 @@ namespace
         K_sib_alloc,
         K_sib_dealloc,
         K_probe_foreign,
+        K_min_block,
         K__count
     };
     const char* kind_names[K__count] = {"alloc_node", "alloc_array", "try_alloc_node",
@@ -147,7 +150,7 @@ namespace
                                         "move_ctor", "move_assign", "swap", "zombie", "sweep",
                                         "cycle", "drain", "fill_block", "exhaust", "probe",
                                         "arm_fault", "replay_unwind", "bad_release", "sib_alloc",
-                                        "sib_dealloc", "probe_foreign"};
+                                        "sib_dealloc", "probe_foreign", "min_block"};
 
     struct Mode
     {
@@ -165,54 +168,55 @@ namespace
     // weights:                an  aa tn ta de ov mk uw ni sh rs mc ma sw zo sp cy dr fb ex pr af ru
     const Mode modes[] = {
         {"C01", O_CORE | O_NOREPORT | O_FILL, ALL_FAM,
-         {30, 12, 6, 4, 30, 1, 4, 4, 4, 2, 2, 2, 2, 1, 2, 3, 1, 1, 2, 1, 0, 0, 1, 0, 0, 0, 0}, 200, false,
+         {30, 12, 6, 4, 30, 1, 4, 4, 4, 2, 2, 2, 2, 1, 2, 3, 1, 1, 2, 1, 0, 0, 1, 0, 0, 0, 0, 0}, 200, false,
          "history with >=8 successful allocations, >=1 release between two allocations, and one of: "
          "upstream growth inside the history / array and node live together / >=2 buckets of a "
          "collection used / a move with live allocations"},
         {"C02", O_CORE | O_ALIGN, ALL_FAM,
-         {30, 20, 6, 6, 20, 0, 3, 3, 3, 1, 2, 1, 1, 0, 0, 3, 0, 1, 4, 0, 0, 0, 1, 0, 0, 0, 0}, 200, false,
+         {30, 20, 6, 6, 20, 0, 3, 3, 3, 1, 2, 1, 1, 0, 0, 3, 0, 1, 4, 0, 0, 0, 1, 0, 0, 0, 0, 0}, 200, false,
          "case with a successful request that has alignment>=8, or an array with count>=2, or sits in "
          "a position class (first in a fresh block / fills block / after growth / after unwind)"},
         {"C03", O_CORE | O_FAIL, ALL_FAM,
-         {20, 8, 8, 6, 16, 14, 2, 2, 3, 1, 1, 1, 1, 0, 0, 2, 0, 1, 3, 6, 0, 6, 0, 0, 0, 0, 0}, 160, true,
+         {20, 8, 8, 6, 16, 14, 2, 2, 3, 1, 1, 1, 1, 0, 0, 2, 0, 1, 3, 6, 0, 6, 0, 0, 0, 0, 0, 0}, 160, true,
          ">=1 failed request (oversize / exhaustion / injected upstream fault) followed by >=1 "
          "successful allocation and >=1 release of memory allocated before the failure"},
         {"C04", O_CORE | O_CONSERVE, FB(F_POOL) | FB(F_COLL),
-         {30, 16, 4, 4, 30, 0, 0, 0, 0, 0, 3, 1, 1, 0, 0, 2, 8, 6, 0, 0, 0, 0, 0, 0, 0, 0, 0}, 200, false,
+         {30, 16, 4, 4, 30, 0, 0, 0, 0, 0, 3, 1, 1, 0, 0, 2, 8, 6, 0, 0, 0, 0, 0, 0, 0, 0, 0, 0}, 200, false,
          "segment with >=1 array whose byte count is not a multiple of the node size, or >=6 releases "
          "in an order different from allocation order and its reverse, or a cycle with k>=3"},
         {"C05", O_CORE | O_UPSTREAM, FB(F_POOL) | FB(F_COLL) | FB(F_STACK) | FB(F_ITER),
-         {30, 10, 4, 2, 20, 0, 6, 8, 3, 6, 2, 3, 3, 2, 3, 1, 0, 2, 4, 2, 0, 4, 0, 0, 0, 0, 0}, 200, true,
+         {30, 10, 4, 2, 20, 0, 6, 8, 3, 6, 2, 3, 3, 2, 3, 1, 0, 2, 4, 2, 0, 4, 0, 0, 0, 0, 0, 0}, 200, true,
          ">=3 upstream blocks acquired and one of: a shrink_to_fit with cached blocks / a move or swap "
          "with >=2 blocks / an injected failure at k>=2 / destruction with live allocations"},
         {"C06", O_CORE | O_UNWIND, FB(F_STACK),
-         {40, 10, 6, 2, 4, 0, 14, 10, 0, 4, 0, 1, 1, 0, 0, 3, 0, 0, 4, 0, 0, 0, 8, 0, 0, 0, 0}, 200, false,
+         {40, 10, 6, 2, 4, 0, 14, 10, 0, 4, 0, 1, 1, 0, 0, 3, 0, 0, 4, 0, 0, 0, 8, 0, 0, 0, 0, 0}, 200, false,
          "an unwind that drops >=1 block with >=2 nested markers alive and a replay of >=3 requests"},
         {"C07", O_CORE | O_ITER, FB(F_ITER),
-         {40, 10, 10, 4, 4, 0, 0, 0, 16, 0, 0, 2, 2, 0, 1, 4, 0, 0, 4, 2, 3, 0, 0, 0, 0, 0, 0}, 200, false,
+         {40, 10, 10, 4, 4, 0, 0, 0, 16, 0, 0, 2, 2, 0, 1, 4, 0, 0, 4, 2, 3, 0, 0, 0, 0, 0, 0, 0}, 200, false,
          ">=N+1 next_iteration calls with allocations of >=2 iterations alive at once (N>=2), or a "
          "block size with size mod N != 0"},
         {"C12", O_CORE | O_UPSTREAM | O_MOVE, FB(F_POOL) | FB(F_COLL) | FB(F_STACK) | FB(F_ITER),
-         {30, 10, 4, 2, 20, 0, 3, 3, 3, 2, 2, 8, 8, 5, 6, 3, 0, 1, 2, 3, 0, 0, 0, 0, 0, 0, 0}, 160, false,
+         {30, 10, 4, 2, 20, 0, 3, 3, 3, 2, 2, 8, 8, 5, 6, 3, 0, 1, 2, 3, 0, 0, 0, 0, 0, 0, 0, 0}, 160, false,
          "a move/move-assignment/swap with >=3 live allocations (>=2 blocks for growing subjects), "
          "followed by >=2 more operations on the new owner, moved-from object destroyed"},
         {"C15", O_CORE | O_LEAK, FB(F_POOL) | FB(F_COLL) | FB(F_STACK),
-         {30, 16, 0, 0, 24, 0, 2, 2, 0, 1, 1, 5, 5, 2, 3, 1, 0, 1, 0, 0, 0, 0, 0, 0, 0, 0, 0}, 120, false,
+         {30, 16, 0, 0, 24, 0, 2, 2, 0, 1, 1, 5, 5, 2, 3, 1, 0, 1, 0, 0, 0, 0, 0, 0, 0, 0, 0, 0}, 120, false,
          "net != 0 at destruction after >=1 move, or >=1 array with element size != node size"},
         {"C16", O_CORE | O_NOREPORT | O_BADREL, FB(F_POOL) | FB(F_COLL) | FB(F_STACK),
-         {30, 10, 4, 2, 40, 0, 4, 6, 0, 2, 1, 1, 1, 0, 0, 2, 0, 4, 0, 0, 0, 0, 0, 10, 0, 0, 0}, 200, false,
+         {30, 10, 4, 2, 40, 0, 4, 6, 0, 2, 1, 1, 1, 0, 0, 2, 0, 4, 0, 0, 0, 0, 0, 10, 0, 0, 0, 0}, 200, false,
          "valid prefix with >=6 releases in non-monotonic address order (no report may fire) followed by a "
          "covered invalid release executed in a forked child, or such a valid history without a bad call"},
         {"C17", O_CORE | O_FILL, ALL_FAM,
-         {30, 12, 6, 4, 30, 0, 3, 3, 3, 1, 1, 1, 1, 0, 0, 3, 0, 2, 2, 0, 0, 0, 0, 0, 0, 0, 0}, 160, false,
+         {30, 12, 6, 4, 30, 0, 3, 3, 3, 1, 1, 1, 1, 0, 0, 3, 0, 2, 2, 0, 0, 0, 0, 0, 0, 0, 0, 0}, 160, false,
          "fill-enabled case with >=4 fresh allocations checked for the new-memory pattern and >=2 "
          "releases to a pool checked for the freed-memory pattern"},
         {"C18", O_CORE | O_CAPS, FB(F_POOL) | FB(F_COLL) | FB(F_STACK) | FB(F_ITER) | FB(F_STATIC),
-         {30, 14, 6, 4, 24, 6, 3, 3, 3, 1, 4, 1, 1, 0, 0, 1, 0, 1, 3, 1, 10, 0, 0, 0, 0, 0, 0}, 160, false,
+         {30, 14, 6, 4, 24, 6, 3, 3, 3, 1, 4, 1, 1, 0, 0, 1, 0, 1, 3, 1, 10, 0, 0, 0, 0, 0, 0, 12}, 160, false,
          "history with >=1 array and >=1 upstream growth whose counter deltas were all checked, or a "
-         ">=1 successful capacity probe"},
+         ">=1 successful capacity probe, or a min_block_size check with n > 255 or a node size that is not a "
+         "multiple of 8"},
         {"C08", O_CORE | O_SIBLING, FB(F_POOL) | FB(F_COLL) | FB(F_STACK) | FB(F_ITER),
-         {20, 8, 16, 8, 24, 0, 2, 2, 2, 1, 1, 1, 1, 0, 0, 2, 0, 1, 2, 3, 0, 0, 0, 0, 24, 10, 30}, 160, false,
+         {20, 8, 16, 8, 24, 0, 2, 2, 2, 1, 1, 1, 1, 0, 0, 2, 0, 1, 2, 3, 0, 0, 0, 0, 24, 10, 30, 0}, 160, false,
          "two sibling allocators on one slab with >=1 foreign-pointer probe answered while both hold live "
          "allocations, and the probing allocator was full (a try_ allocation failed) at least once or "
          "the blocks of the siblings are adjacent (zero gap)"},
@@ -1991,6 +1995,77 @@ namespace
             ci.classes.insert("foreign-probe");
         }
 
+        //--- C18 (a): an allocator built with min_block_size(...) serves what it was sized for ---//
+        unsigned n_minblock = 0, n_minblock_nt = 0;
+        template <class PoolType>
+        void min_block_pool(const char* what, size_t node_size, size_t n)
+        {
+            using pool_t = fm::memory_pool<PoolType, fm::fixed_block_allocator<SlabAlloc>>;
+            size_t bs    = pool_t::min_block_size(node_size, n);
+            size_t calls0 = up_calls();
+            pool_t pool(node_size, bs, SlabAlloc(7777));
+            size_t got = 0;
+            for (; got < n; ++got)
+                if (!pool.try_allocate_node())
+                    break;
+            if (got != n)
+                fail("min-block-size", std::string(what) + ": a pool built with min_block_size(" + std::to_string(node_size)
+                                           + ", " + std::to_string(n) + ") = " + std::to_string(bs) + " served only "
+                                           + std::to_string(got) + " nodes");
+            else if (up_calls() != calls0 + 1)
+                fail("min-block-size", std::string(what) + ": more than one upstream block was needed");
+            ++n_minblock;
+            if (n > 255 || node_size % 8 != 0)
+                ++n_minblock_nt;
+        }
+        void op_min_block(const Op& op)
+        {
+            if (!has(O_CAPS))
+            {
+                ++ci.noops;
+                return;
+            }
+            size_t node_size = 1 + op.a % 512;
+            size_t n         = 1 + op.b % 2000;
+            if ((op.b / 2000) % 3 == 0)
+            {
+                // chunk boundaries of the small free list (255 nodes per chunk)
+                static const long d[] = {-1, 0, 1};
+                long v = long(255 * (1 + (op.b / 6000) % 7)) + d[(op.b / 42000) % 3];
+                n      = size_t(v);
+            }
+            if (node_size * n > (size_t(1) << 20))
+                n = (size_t(1) << 20) / node_size;
+            switch (op.c % 4)
+            {
+            case 0:
+                min_block_pool<fm::node_pool>("node_pool", node_size, n);
+                break;
+            case 1:
+                min_block_pool<fm::array_pool>("array_pool", node_size, n);
+                break;
+            case 2:
+                min_block_pool<fm::small_node_pool>("small_node_pool", node_size, n);
+                break;
+            default:
+            {
+                // memory_stack: documented as "the resulting capacity will be exactly n"
+                using stack_t = fm::memory_stack<fm::fixed_block_allocator<SlabAlloc>>;
+                size_t bytes  = 1 + (op.a * 37 + op.b) % 20000;
+                stack_t st(stack_t::min_block_size(bytes), SlabAlloc(7778));
+                if (st.capacity_left() != bytes)
+                    fail("min-block-size", "memory_stack built with min_block_size(" + std::to_string(bytes)
+                                               + ") has capacity_left() " + std::to_string(st.capacity_left()));
+                else if (bytes > 2 * fence_size && !st.try_allocate(bytes - 2 * fence_size, 1))
+                    fail("min-block-size", "memory_stack built with min_block_size(" + std::to_string(bytes)
+                                               + ") cannot serve its whole capacity");
+                ++n_minblock;
+                ++n_minblock_nt;
+            }
+            }
+            ci.classes.insert("min-block-size");
+        }
+
         //--- C16: covered invalid releases, each in a forked child ---//
         struct Freed
         {
@@ -2330,7 +2405,7 @@ namespace
             else if (p == "C17")
                 nt = fill_on && n_fill_new >= 4 && n_fill_free >= 2;
             else if (p == "C18")
-                nt = (n_arrays >= 1 && n_growth >= 1 && n_caps_checked >= 4) || n_probe_ok >= 1;
+                nt = (n_arrays >= 1 && n_growth >= 1 && n_caps_checked >= 4) || n_probe_ok >= 1 || n_minblock_nt >= 1;
             ci.nontrivial = nt;
             if (n_arrays)
                 ci.classes.insert("array");
@@ -2356,6 +2431,7 @@ namespace
             ci.counters["structure_walks"] += n_walks;
             ci.counters["bad_calls_in_child"] += n_bad_calls;
             ci.counters["bad_calls_not_applicable"] += n_bad_na;
+            ci.counters["min_block_size_checks"] += n_minblock;
             ci.counters["foreign_probes"] += n_probes;
             ci.counters["foreign_probes_adjacent_blocks"] += n_probes_adjacent;
             ci.counters["alloc_ok"] += n_alloc_ok;
@@ -2539,6 +2615,9 @@ namespace
                     break;
                 case K_probe_foreign:
                     op_probe_foreign(op);
+                    break;
+                case K_min_block:
+                    op_min_block(op);
                     break;
                 default:
                     ++ci.noops;
